@@ -323,45 +323,3 @@ func (in *interpreter) symbolicOrder(m *gomap) []int {
 	}
 	return out
 }
-
-// ---- channels and goroutines (sequential semantics only; the cooperative
-// scheduler in sched.go replaces these when enabled)
-
-func makeChan(fr *frame, instr *ssa.MakeChan, size int64) value {
-	return make(chan value, size)
-}
-
-func chanSend(fr *frame, ch, v value) {
-	c := ch.(chan value)
-	select {
-	case c <- v:
-	default:
-		panic(engineError{"channel send would block (no scheduler)" + callerChain(fr)})
-	}
-}
-
-func chanRecv(fr *frame, instr *ssa.UnOp, x value) value {
-	c := x.(chan value)
-	var v value
-	var ok bool
-	select {
-	case v, ok = <-c:
-	default:
-		panic(engineError{"channel receive would block (no scheduler)" + callerChain(fr)})
-	}
-	if !ok {
-		v = zero(instr.X.Type().Underlying().(*types.Chan).Elem())
-	}
-	if instr.CommaOk {
-		v = tuple{v, ok}
-	}
-	return v
-}
-
-func spawn(fr *frame, instr *ssa.Go, fn value, args []value) {
-	panic(engineError{"go statement reached (no scheduler)" + callerChain(fr)})
-}
-
-func doSelect(fr *frame, instr *ssa.Select) value {
-	panic(engineError{"select reached (no scheduler)" + callerChain(fr)})
-}
